@@ -72,13 +72,15 @@ def keep_c12(c, quick):
 def generate(rng, quick, c12=False):
     cases = []
     N = 40 if quick else 120
-    groups = [0, 1, 2, 3, 5] if quick else [0, 1, 2, 3, 4, 5, 8, 15]
+    groups = [0, 1, 2, 5] if quick else [0, 1, 2, 3, 4, 5, 8, 15]
     # ---- A: read_bitpacked ------------------------------------------------------------------
     for w in range(0, 33):
         for g in groups:
             for isz in (1, 4):
                 for pname, vs in patterns(rng, w, 8 * g):
                     if g == 0 and pname != "zeros":
+                        continue
+                    if quick and g != 1 and pname in ("zeros", "alternating"):
                         continue
                     full = (not quick) and g <= 3
                     for cap in caps_items(8 * g, isz, full or (quick and g == 1 and pname == "random")):
@@ -97,19 +99,21 @@ def generate(rng, quick, c12=False):
                               "enc": ["bp_enc", w, vs], "trail": False, "stream": "main",
                               "meta": {"g": g, "pattern": "random", "empty_run": False}})
     # ---- B: read_rle ------------------------------------------------------------------------
-    counts = [0, 1, 2, 7, 8, 9, N]
+    counts = [0, 1, 8, 9, N] if quick else [0, 1, 2, 7, 8, 9, N]
     for w in range(0, 33):
         for cnt in counts:
             for isz in (1, 4):
                 for pname, vs in patterns(rng, w, 1):
                     if w == 0 and pname != "zeros":
                         continue
+                    if quick and w and pname in ("zeros", "alternating") and w not in (1, 8, 9, 16, 17, 24, 25, 32):
+                        continue
                     for cap in caps_items(cnt, isz, (not quick) and cnt <= 9):
                         cases.append({"fn": "read_rle", "header": 2 * cnt, "w": w, "isz": isz, "cap": cap,
                                       "enc": ["fixed_enc", (w + 7) // 8, vs], "trail": True, "stream": "main",
                                       "meta": {"count": cnt, "pattern": pname, "value": vs[0]}})
     # ---- C: hybrid streams ------------------------------------------------------------------
-    nmix = 3 if quick else 10
+    nmix = 2 if quick else 10
     for w in range(0, 33):
         shapes = ["rle-only"]
         shapes += ["bp-only", "mixed", "mixed"] * 1
@@ -129,7 +133,7 @@ def generate(rng, quick, c12=False):
                 has_bp = any(r[0] == "bp" for r in runs)
                 total = sum(r[1] if r[0] == "rle" else (len(r[1]) + 7) // 8 * 8 for r in runs)
                 bad = has_bp and (w >= 25 or w == 0)
-                wants = sorted({0, 1, total - 1, total, total + 1, rng.randrange(total + 1)})
+                wants = sorted({0, 1, total - 1, total, total + 1} | (set() if quick else {rng.randrange(total + 1)}))
                 for isz in (1, 4):
                     for n in wants:
                         if n < 0:
@@ -143,7 +147,20 @@ def generate(rng, quick, c12=False):
                                               "enc": ["hyb_enc_len" if prefixed else "hyb_enc", w, runs], "trail": True,
                                               "stream": "confirm" if bad else "main",
                                               "meta": {"runs": runs, "total": total, "has_bp": has_bp, "shape": shape,
-                                                       "empty_run": has_bp and w == 0}})
+                                                       "empty_run": has_bp and w == 0, "truncated_run": False}})
+                # what other writers (impala, old parquet-mr) emit: the LAST bit-packed group is not padded to 8 values -
+                # only the bytes that hold real values are there (a lenient reader accepts it; the page ends right behind)
+                if runs[-1][0] == "bp" and len(runs[-1][1]) % 8 and 0 < w <= 24:
+                    nreal = len(runs[-1][1])
+                    padded = (nreal + 7) // 8 * 8
+                    cutb = padded * w // 8 - (nreal * w + 7) // 8
+                    real_total = total - (padded - nreal)
+                    if cutb > 0:
+                        for isz in (1, 4):
+                            cases.append({"fn": "read_hybrid", "w": w, "isz": isz, "cap": real_total * isz, "prefixed": False,
+                                          "enc": ["hyb_enc", w, runs], "trail": True, "cut": cutb, "stream": "confirm",
+                                          "meta": {"runs": runs, "total": real_total, "has_bp": True, "shape": shape,
+                                                   "empty_run": False, "truncated_run": True}})
     # ---- D: varints -------------------------------------------------------------------------
     for ln in range(1, 11):
         lo = 0 if ln == 1 else 1 << (7 * (ln - 1))
@@ -185,6 +202,8 @@ def generate(rng, quick, c12=False):
         c = cases[i]
         if not isinstance(o, (bytes, bytearray)):
             raise RuntimeError("spec encoder failed on %r: %r" % (c["enc"], o))
+        if c["fn"] == "read_hybrid" and c.get("cut"):
+            o = bytes(o)[:len(o) - c.pop("cut")]
         c["inp"] = (bytes(o) + (TRAIL if c.get("trail") else b"")).hex()
         c["enc_len"] = len(o)
         del c["enc"]
@@ -343,13 +362,13 @@ def _hy_oracle(c, r, so, guard):
         return [("spec", "spec decoder rejects the stream")]
     vals, rest = so[0]
     want_in = None
-    if not c["prefixed"] and c["cap"] % c["isz"] == 0:
+    if not c["prefixed"] and c["cap"] % c["isz"] == 0 and not c["meta"].get("truncated_run"):
         want_in = c["enc_len"] - len(rest)
     return _check_decoder(c, r, vals, want_in, n * c["isz"], guard)
 
 
 def _hy_safe(c):
-    return not (c["meta"]["has_bp"] and (c["w"] == 0 or c["w"] > 24))
+    return not (c["meta"]["has_bp"] and (c["w"] == 0 or c["w"] > 24)) and not c["meta"].get("truncated_run")
 
 
 # --- read_bitpacked1
@@ -418,7 +437,7 @@ FNS = {
                      trivial=lambda c: c["header"] >> 1 == 0 or c["cap"] < c["isz"]),
     "read_hybrid": dict(hw=lambda c: ("c_read_hybrid_hw",) + _hy_model(c)[1:], model=_hy_model, views=_dec_views, spec=_hy_spec, oracle=_hy_oracle, safe=_hy_safe,
                         cls=lambda c: {"width": c["w"], "isz": c["isz"], "has_bp": c["meta"]["has_bp"],
-                                       "empty_run": c["meta"]["empty_run"]},
+                                       "empty_run": c["meta"]["empty_run"], "truncated_run": bool(c["meta"].get("truncated_run"))},
                         trivial=lambda c: c["cap"] < c["isz"]),
     "read_bitpacked1": dict(model=lambda c: ("c_read_bitpacked1", _inp(c), c["count"], c["cap"]), views=_dec_views,
                             spec=lambda c: ("bool_dec", min(c["count"], c["cap"]), _inp(c)[:c["enc_len"]]),
@@ -667,7 +686,9 @@ def gen_delta(rng, quick):
         for bs, mpb in layouts:
             vpm = bs // mpb
             for w in range(0, bits + 1):
-                pats = ["random"] if (quick and w not in (0, 1, 8, 24, 28, 29, 32, 56, 57, 64)) else ["ones", "alternating", "random"]
+                pats = ["random"] if (quick and w not in (0, 1, 8, 24, 28, 29, 32, 56)) else ["ones", "alternating", "random"]
+                if quick and w > 57 and w not in (60, 64):
+                    continue            # every width >= 57 kills the worker (one restart each): boundary + two more in the quick tier
                 for pat in pats:
                     counts = [vpm + 1, bs + 2] if quick else [2, vpm, vpm + 1, vpm + 2, bs, bs + 1, bs + 2, 2 * bs + 1]
                     if pat != "random":
@@ -691,6 +712,8 @@ def gen_delta(rng, quick):
                         continue
                     if cc == "none" and count == 0:
                         continue
+                    if quick and cc == "none" and count not in (1, 2, vpm + 1):
+                        continue        # an empty output kills the worker: three counts are enough to confirm the finding
                     cases.append({"fn": "delta_unpack", "longval": longval, "cap": cap,
                                   "enc": ["delta_enc", bits, bs, mpb, vals], "trail": True,
                                   "stream": "main" if (cc in ("exact", "odd") and count > 0 and (count - 1) % bs) else "confirm",
@@ -741,7 +764,7 @@ def gen_encoders(rng, quick):
     for w in range(0, 33):
         for n in ns:
             for pname, vs in patterns(rng, w, n):
-                if quick and pname != "random" and n not in (8, 9):
+                if quick and pname != "random" and (n not in (8, 9) or pname != "ones"):
                     continue
                 need = 5 + (n * w + 7) // 8
                 for cap in sorted({need + 4, need, max(need - 5, 0), 0, 1, 3}) if pname == "random" else [need + 4]:
@@ -872,8 +895,20 @@ def gen_plain(rng, quick):
             cases.append({"fn": "read_plain_boolean", "count": n, "enc": ["bool_enc", vs], "trail": pname == "random",
                           "stream": "main", "meta": {"vals": vs}})
             cases.append({"fn": "convert_bool", "vals": vs, "stream": "main", "meta": {}})
+    # writer.make_definitions: both branches (no nulls -> one RLE run; nulls -> bit-packed booleans), page v1 and v2
+    for n in (list(range(0, 41)) + [64, 65, 1000] if quick else list(range(0, 130)) + [1000, 1023, 1024, 1025, 8191, 8192]):
+        for version in (1, 2):
+            for npat in ("none", "third", "all", "random"):
+                if n == 0 and npat != "none":
+                    continue
+                nulls = {"none": [False] * n, "third": [i % 3 == 1 for i in range(n)], "all": [True] * n,
+                         "random": [rng.random() < 0.4 for _ in range(n)]}[npat]
+                for no_nulls in ((True, False) if npat == "none" else (False,)):
+                    cases.append({"fn": "make_definitions", "vals": [None if z else float(i) for i, z in enumerate(nulls)],
+                                  "no_nulls": no_nulls, "version": version, "stream": "main",
+                                  "meta": {"n": n, "nulls": npat}})
     for dt, isz in (("int8", 1), ("int16", 2), ("int32", 4)):
-        for n in ([0, 1, 7, 8, 9, 16, 17, 64, 65] if quick else list(range(0, 70)) + [127, 128, 129, 1000, 1023, 1024, 1025]):
+        for n in (list(range(0, 41)) + [64, 65, 1000, 1025] if quick else list(range(0, 70)) + [127, 128, 129, 1000, 1023, 1024, 1025]):
             vs = [rng.randrange(1 << (8 * isz - 1)) for _ in range(n)]
             cases.append({"fn": "encode_dict", "vals": vs, "dtype": dt, "stream": "main", "meta": {"isz": isz}})
     return cases
@@ -954,6 +989,37 @@ def _ed_oracle(c, r, so, guard):
         return [("values", "RLE_DICTIONARY index block does not decode (spec hybrid decoder) to the %d indices: %s..." % (n, out[:12].hex()))]
     if n and len(dec[0][1]):
         return [("cursor", "%d bytes behind the bit-packed run" % len(dec[0][1]))]
+    # the run body must be either the bare values (what the writer emits today, readable by the `selfmade` fast path as
+    # an array of the index type) or whole groups of 8 values (what the specification asks for) - nothing in between
+    hdr = len(_uleb_py(((n + 7) // 8) << 1 | 1))
+    body = len(out) - 1 - hdr
+    if n and body not in (n * isz, (n + 7) // 8 * 8 * isz):
+        return [("values", "bit-packed run body of %d bytes for %d indices of %d bytes: neither the bare values (%d) nor whole groups (%d)"
+                 % (body, n, isz, n * isz, (n + 7) // 8 * 8 * isz))]
+    if r[2] is not None and r[2] != c["vals"]:
+        return [("values", "the real decoder (read_rle_bit_packed_hybrid) does not return the indices from encode_dict's output: %r..." % (r[2][:8],))]
+    return []
+
+
+def _md_oracle(c, r, so, guard):
+    """definition levels block: [4-byte length (v1)] + hybrid runs of width 1 that decode (spec) to 1 = present / 0 = null"""
+    if r[0] != "ok":
+        return [(r[0], "real code: %r" % (r,))]
+    block = bytes.fromhex(r[1])
+    n = len(c["vals"])
+    want = [0 if v is None else 1 for v in c["vals"]]
+    dec = so[1]
+    if not dec:
+        return [("values", "definition-level block %s... is rejected by the spec decoder" % block[:12].hex())]
+    vals, rest = dec[0]
+    if list(vals) != want:
+        return [("values", "definition levels decode to %r..., the data has %r..." % (list(vals)[:12], want[:12]))]
+    if n and len(rest):
+        return [("cursor", "%d bytes behind the runs / length prefix does not cover the block" % len(rest))]
+    if c["version"] == 1 and int.from_bytes(block[:4], "little") != len(block) - 4:
+        return [("count", "length prefix %d, block body %d bytes" % (int.from_bytes(block[:4], "little"), len(block) - 4))]
+    if r[2] != (n if c["no_nulls"] else None) and c["no_nulls"]:
+        return [("count", "make_definitions returned %r values for %d rows without nulls" % (r[2], n))]
     return []
 
 
@@ -996,6 +1062,11 @@ FNS.update({
                          spec=lambda c: ("bool_enc", c["vals"]), oracle=_cb_oracle, safe=lambda c: True, cls=lambda c: {},
                          spec2=lambda c, r: ("bool_dec", len(c["vals"]), bytes.fromhex(r[1])) if r[0] == "ok" else None,
                          trivial=lambda c: not c["vals"], info=lambda c, mo, r: r[0] == "ok" and bytes(mo).hex() == r[1]),
+    "make_definitions": dict(model=lambda c: ("uleb_enc", 0), tagged=False, views=_info_views("none"),
+                             spec=lambda c: ("uleb_enc", 0), oracle=_md_oracle, safe=lambda c: True, cls=lambda c: {"version": c["version"]},
+                             trivial=lambda c: not c["vals"],
+                             spec2=lambda c, r: (("hyb_dec_len" if c["version"] == 1 else "hyb_dec"), 1 if c["version"] == 1 else 0, 1,
+                                                 len(c["vals"]), bytes.fromhex(r[1])) if r[0] == "ok" else None),
     "encode_dict": dict(model=lambda c: ("py_encode_dict", c["meta"]["isz"], c["vals"]), tagged=False,
                         views=_info_views("py_encode_dict"), spec=lambda c: ("uleb_enc", 0), oracle=_ed_oracle,
                         spec2=lambda c, r: ("hyb_dec", 0, 8 * c["meta"]["isz"], len(c["vals"]), bytes.fromhex(r[1])[1:]) if r[0] == "ok" and r[1] else None,
